@@ -32,7 +32,7 @@ Definition pack_of (n : node) : upack :=
   end.
 Definition observe_ev (e : eng) (nstatic : nat) (x : ev) : oev :=
   match x with
-  | ENew t n p a => let nn := nd e n in
+  | ENew t n p a _ => let nn := nd e n in
                     ObNew t (if Nat.ltb n nstatic then Some (n_id nn) else None) p (n_kind nn) (n_level nn) (pack_of nn) a
   | ETrans t o n a _ => ObTrans t o n a
   | EMsg t s i o => ObMsg t (to_mstate s) i o
